@@ -240,13 +240,15 @@ def check_init(res, rng, tag):
     import tomlkit
     base = ol.scratch_dir()
     rmod = {str(rng.randint(0, 40)): rng.choice(["1.0e-10", "2.5e-9 * zeta", "k[0] * 2.0", "0.0"]) for _ in range(rng.randint(1, 3))}
-    om = {"H": (rng.choice(["-2.0", "1.5 * k[0]", "zeta"]), rng.sample(["H", "H2", "O"], rng.randint(1, 3)))}
+    om = {t: (rng.choice(["-2.0", "1.5 * k[0]", "zeta"]), rng.sample(["H", "H2", "O"], rng.randint(1, 3)))
+          for t in rng.sample(["H", "H2", "O"], rng.randint(1, 3))}
+    tail = rng.choice(["", ";"])          # `naunet example --dry` prints every occurrence with a trailing ';'
     args = ["init", "--name=p", "--description=d", "--loading=", "--elements=H,O", "--pseudo-elements=", "--element-replacement=",
             "--surface-prefix=#", "--bulk-prefix=@", "--allowed-species=", "--extra-species=", "--binding=", "--yield=",
             "--grain-symbol=GRAIN", "--grain-model=", "--network-files=", "--file-formats=", "--heating=", "--cooling=",
             "--shielding=", "--solver=cvode", "--device=cpu", "--method=dense"]
     args += [f"--rate-modifier={k}:{v}" for k, v in rmod.items()]
-    args += [f"--ode-modifier={k}:{f},[{' '.join(d)}]" for k, (f, d) in om.items()]
+    args += [f"--ode-modifier={k}:{f},[{' '.join(d)}]{tail}" for k, (f, d) in om.items()]
     rc, out, err = naunet_cli(args, base)
     case = {"kind": "c13-init", "args": args}
     if rc != 0 or not (base / "naunet_config.toml").exists():
